@@ -146,6 +146,11 @@ impl FileSystem for MemoryFS {
         crate::verif_hooks::yield_point("memory::read_dir::read");
         let handle = self.handle.read().unwrap();
         let mut found_directory = false;
+        if let Some(file) = handle.files.get(path) {
+            if file.file_type != VfsFileType::Directory {
+                return Err(VfsErrorKind::Other("Not a directory".into()).into());
+            }
+        }
         #[allow(clippy::needless_collect)] // need collect to satisfy lifetime requirements
         let entries: Vec<_> = handle
             .files
